@@ -129,19 +129,19 @@ Definition hdr_done (st : St) (r : Run (nat * MpRes)) : Prop :=
       (forall bs bl, mp = MpYes bs bl -> 1 <= bl <= BOUNDARY_MAX /\ bs + bl <= length m) /\
       existsb is8 (sub m b h) = false /\
       longrun 0 (skipn h w) = longrun 0 (skipn (hpos 0 w) w) /\
-      exists t, good ext8 D0 st' t /\ (h < len -> t = [])
+      exists t, good ext8 D0 st' t /\ (h < len \/ ends_eol w = true -> t = [])
   end.
 
 (** the part of qp_header behind is_multipart(), given how the pieces of the header window behave *)
-Lemma hdr_match (h : nat) (mp : MpRes) (cenc : nat * nat) (body_recode : bool) (st : St) :
+Lemma hdr_match (C : Prop) (h : nat) (mp : MpRes) (cenc : nat * nat) (body_recode : bool) (st : St) :
   good ext8 D0 st [] ->
   (forall st0, good ext8 D0 st0 [] ->
-     exists st' t, wrap_header m b h st0 = Ok st' /\ good ext8 D0 st' t /\ (h < len -> t = [])) ->
+     exists st' t, wrap_header m b h st0 = Ok st' /\ good ext8 D0 st' t /\ (C -> t = [])) ->
   (snd cenc <> 0 -> forall st0, good ext8 D0 st0 [] ->
      exists st', wrap_header m b (fst cenc) st0 = Ok st' /\ good ext8 D0 st' []) ->
   (snd cenc <> 0 -> fst cenc + snd cenc <= h -> forall st0, good ext8 D0 st0 [] ->
      exists st' t, wrap_header m (b + (fst cenc + snd cenc)) (h - (fst cenc + snd cenc)) st0 = Ok st' /\
-                   good ext8 D0 st' t /\ (h < len -> t = [])) ->
+                   good ext8 D0 st' t /\ (C -> t = [])) ->
   exists r,
     (match mp with
      | MpDie w0 => Ok (Die w0 st)
@@ -166,7 +166,7 @@ Lemma hdr_match (h : nat) (mp : MpRes) (cenc : nat * nat) (body_recode : bool) (
      end) = Ok r /\
     match r with
     | Die _ st' => st' = st
-    | Done (h', mp') st' => h' = h /\ mp' = mp /\ exists t, good ext8 D0 st' t /\ (h < len -> t = [])
+    | Done (h', mp') st' => h' = h /\ mp' = mp /\ exists t, good ext8 D0 st' t /\ (C -> t = [])
     end.
 Proof.
   intros Hg PW P1 P2.
@@ -178,7 +178,7 @@ Proof.
               (do st1 <- wrap_header m b (fst cenc) st;
                do st3 <- (if Nat.ltb h (fst cenc + snd cenc) then Ok (mid st1)
                           else wrap_header m (b + (fst cenc + snd cenc)) (h - (fst cenc + snd cenc)) (mid st1));
-               Ok (Done (h, mp) st3)) = Ok (Done (h, mp) st3) /\ good ext8 D0 st3 t /\ (h < len -> t = [])).
+               Ok (Done (h, mp) st3)) = Ok (Done (h, mp) st3) /\ good ext8 D0 st3 t /\ (C -> t = [])).
   { intros mid Hmid Hn. destruct (P1 Hn st Hg) as (st1 & E1 & G1). rewrite E1. cbn [bind].
     destruct (Nat.ltb_spec h (fst cenc + snd cenc)) as [Hlt|Hge].
     - cbn [bind]. exists (mid st1), []. split; [reflexivity|]. split; [apply Hmid; exact G1|auto].
@@ -186,7 +186,7 @@ Proof.
       exists st3, t. auto. }
   assert (Whole : forall st0, good ext8 D0 st0 [] ->
             exists st1 t, (do st1 <- wrap_header m b h st0; Ok (Done (h, mp) st1)) = Ok (Done (h, mp) st1) /\
-                          good ext8 D0 st1 t /\ (h < len -> t = [])).
+                          good ext8 D0 st1 t /\ (C -> t = [])).
   { intros st0 H0. destruct (PW st0 H0) as (st1 & t & E1 & G1 & Ht). rewrite E1. cbn [bind]. exists st1, t. auto. }
   destruct mp as [bs bl| | |w0].
   - destruct (Nat.eqb_spec (snd cenc) 0) as [Hz|Hnz]; cbn [negb].
@@ -237,12 +237,12 @@ Lemma hdr_tail (h : nat) (ct cenc : nat * nat) (body_recode : bool) (st : St) :
   longrun 0 (skipn h w) = longrun 0 (skipn (hpos 0 w) w) ->
   (existsb is8 (sub m b h) = false ->
    (forall st0, good ext8 D0 st0 [] ->
-      exists st' t, wrap_header m b h st0 = Ok st' /\ good ext8 D0 st' t /\ (h < len -> t = [])) /\
+      exists st' t, wrap_header m b h st0 = Ok st' /\ good ext8 D0 st' t /\ (h < len \/ ends_eol w = true -> t = [])) /\
    (snd cenc <> 0 -> forall st0, good ext8 D0 st0 [] ->
       exists st', wrap_header m b (fst cenc) st0 = Ok st' /\ good ext8 D0 st' []) /\
    (snd cenc <> 0 -> fst cenc + snd cenc <= h -> forall st0, good ext8 D0 st0 [] ->
       exists st' t, wrap_header m (b + (fst cenc + snd cenc)) (h - (fst cenc + snd cenc)) st0 = Ok st' /\
-                    good ext8 D0 st' t /\ (h < len -> t = []))) ->
+                    good ext8 D0 st' t /\ (h < len \/ ends_eol w = true -> t = []))) ->
   exists r, hdr_rest h ct cenc body_recode st = Ok r /\ hdr_done st r.
 Proof.
   intros Hg Hh Hct Hlr Pieces. unfold hdr_rest.
@@ -254,7 +254,7 @@ Proof.
   destruct (is_multipart_ok m (b + fst ct) (snd ct)) as (mp & Emp & Hmp).
   { destruct Hct as [Hz|(A & _ & C)]; [left; exact Hz|right; split; assumption]. }
   rewrite Emp. cbn [bind].
-  destruct (hdr_match h mp cenc body_recode st Hg PW P1 P2) as (r & Er & Hr).
+  destruct (hdr_match (h < len \/ ends_eol w = true) h mp cenc body_recode st Hg PW P1 P2) as (r & Er & Hr).
   exists r. split; [exact Er|]. destruct r as [[h' mp'] st'|why st']; [|exact Hr].
   destruct Hr as (-> & -> & t & Gt & Ht). unfold hdr_done. split; [exact Hh|]. split; [eauto|]. split.
   - intros bs bl ->. destruct (Hmp bs bl eq_refl) as (Hbl & Hbs & Hbe). split; [exact Hbl|].
@@ -326,8 +326,12 @@ Proof.
   set (hw := firstn h w) in *.
   assert (Hhwl : length hw = h) by (unfold hw; rewrite firstn_length, w_len; lia).
   assert (Hne : noempty hw) by (unfold hw; rewrite HhP; apply noempty_header).
-  assert (Hends : h < len -> ends_eol hw = true).
-  { intros Hlt. unfold hw. rewrite HhP. apply hpos_ends_eol; apply Hin; exact Hlt. }
+  assert (Hends : h < len \/ ends_eol w = true -> ends_eol hw = true).
+  { intros [Hlt|Hee].
+    - unfold hw. rewrite HhP. apply hpos_ends_eol; apply Hin; exact Hlt.
+    - destruct (Nat.eq_dec h len) as [Ehl|Nhl].
+      + unfold hw. rewrite firstn_all2 by (rewrite w_len; lia). exact Hee.
+      + unfold hw. rewrite HhP. apply hpos_ends_eol; apply Hin; lia. }
   split; [|split].
   - intros st0 G0. destruct (hdr_piece ext8 m b h D0 st0) as (st' & t & E & G & Ht); [lia| | |exact G0|].
     + rewrite sub_prefix by lia. exact H8.
